@@ -70,7 +70,10 @@ def run(ctx):
     ctx.rule = ('case = (m, t, prss, crashing party, byte offset of the cut in its outgoing streams, fault mode, schedule); '
                 'offsets: frame boundaries b, b-1, b+1, mid-frame, random; non-trivial when the cut falls strictly inside the run')
     ctx.explanation = 'model-level simulation theorem + crash injection at byte granularity in the simulator'
-    configs = [(3, 1, False), (3, 1, True), (5, 2, False)] + ([(4, 1, True), (5, 2, True), (7, 3, False)] if ctx.tier == 'thorough' else [])
+    # m > 2t+1 matters: there a party outside the window of 2t+1 resharing dealers only RECEIVES, and a value silently
+    # recombined from fewer points goes unnoticed by the degree
+    configs = [(3, 1, False), (4, 1, False), (3, 1, True), (4, 1, True), (5, 2, False)] + (
+        [(5, 1, False), (5, 2, True), (7, 3, False)] if ctx.tier == 'thorough' else [])
     nruns = 0
     ncompleted = 0
     for (m, t, no_prss) in configs:
@@ -256,6 +259,60 @@ def run(ctx):
                                           {**key, 'party': pid, 'output': 'output(x + 2 + r - r), x = 5', 'got': out['seven'], 'want': 7})
             finally:
                 sim.close()
+    # ---- a party disconnects cleanly BETWEEN two phases of the program: the survivors are told (connection_lost) before
+    # they post the receives of the next multiplication; with m > 2t+1 a share recombined from fewer points would not be
+    # noticed by its degree, so the survivors must fail (or hang), never open a wrong product
+    for (m, t) in [(4, 1), (5, 1)] + ([(6, 2), (7, 2)] if ctx.tier == 'thorough' else []):
+        for c in range(m):
+            for loss in ('none', 'exc'):
+                sim = Sim(m, t, no_prss=(c + m) % 2 == 0, seed=100 + c)
+                keep = {}
+                try:
+                    sim.start()
+                    vals_in = [3 + 2 * i for i in range(m)]
+
+                    async def phase_a(mpc, mods, pid):
+                        secint = mpc.SecInt(16)
+                        xs = mpc.input(secint(vals_in[pid]))
+                        keep[pid] = xs
+                        return await mpc.output(mpc.sum(xs))
+                    ra = sim.run(phase_a, Fifo(), idle_limit=300)
+                    if ra != [sum(vals_in)] * m:
+                        ctx.violation('two-phase-first-phase-wrong m=%d t=%d' % (m, t), {'m': m, 't': t, 'result': str(ra)})
+                        continue
+                    sim.net.dead.add(c)
+                    sim.net.loss_mode = loss
+                    surv = [i for i in range(m) if i != c]
+                    res_b = {}
+
+                    async def phase_b(mpc, mods, pid):
+                        if pid == c:
+                            return 'dead'
+                        import asyncio as _a
+                        for _ in range(5):
+                            await _a.sleep(0)
+                        xs = keep[pid]
+                        out = res_b.setdefault(pid, {})
+                        z1 = xs[surv[0]] * xs[surv[1]]
+                        z2 = xs[surv[1]] * xs[surv[2]] + xs[surv[0]]
+                        out['z1'] = await mpc.output(z1, receivers=surv)
+                        out['z2'] = await mpc.output(z2, receivers=surv)
+                        return dict(out)
+                    sim.run(phase_b, Fifo(), idle_limit=300)
+                    nruns += 1
+                    key = {'m': m, 't': t, 'crashed': c, 'mode': 'clean disconnect between phases', 'notified': loss, 'no_prss': (c + m) % 2 == 0}
+                    ctx.case(key, nontrivial=True, kind='two-phase disconnect m=%d' % m)
+                    want = {'z1': vals_in[surv[0]] * vals_in[surv[1]], 'z2': vals_in[surv[1]] * vals_in[surv[2]] + vals_in[surv[0]]}
+                    for pid, out in res_b.items():
+                        for k, v in out.items():
+                            if v is None:
+                                continue
+                            ncompleted += 1
+                            if v != want[k]:
+                                ctx.violation('survivor-output-wrong-after-clean-disconnect m=%d t=%d' % (m, t),
+                                              {**key, 'party': pid, 'output': k, 'got': v, 'want': want[k]})
+                finally:
+                    sim.close()
     ctx.extra['crash_runs'] = nruns
     ctx.extra['survivor_outputs_completed_and_checked'] = ncompleted
     ctx.log('%d crash runs, %d completed survivor outputs checked' % (nruns, ncompleted))
